@@ -12,6 +12,9 @@ REPO = os.environ.get('VERIF_REPO', '/repo')
 VERIF = os.path.dirname(os.path.dirname(os.path.abspath(__file__)))
 
 
+TIER = 'quick'   # set by check
+
+
 class Project:
     def __init__(self, repo=REPO):
         self.repo = repo
@@ -69,6 +72,7 @@ class Contract:
         self.harness_pre = None
         self.harness_post = None
         self.ghost_init = None
+        self.captures = []    # (ghost name, local name, expr, ctype)
         self.markers = []     # (line, id)
         if not os.path.exists(path):
             return
@@ -108,6 +112,12 @@ class Contract:
                     cur = ('harness-post', no + 1, [])
                     self.harness_post = cur
                     self.markers.append((no, 'harness-post'))
+                elif kind == 'capture':
+                    # /*@ capture <local>:<ctype> [<ghost>=<expr>@<local>:<ctype>] ... */  (rule R21)
+                    for item in re.findall(r'(?:(\w+)=([^@\s]+)@)?(\w+):([\w ]+?)(?=\s+\w+[:=]|\s*$)', rest):
+                        gname, expr, local, ctype = item
+                        self.captures.append((gname or 'cap_' + local, local, expr or local, ctype.strip()))
+                    cur = None
                 elif kind == 'ghost-init':
                     cur = ('ghost-init', no + 1, [])
                     self.ghost_init = cur
@@ -151,6 +161,8 @@ class Contract:
                 continue
             only = c[4].get('only')
             if only and only != mode:
+                continue
+            if c[4].get('tier') == 'thorough' and TIER != 'thorough' and mode == 'enforce':
                 continue
             out.append('#line %d "%s"' % (c[1], self.path))
             out.extend(c[2])
@@ -363,11 +375,37 @@ def extract_function(proj, fi, functable, real='double', srcrel=None, select=Non
     if contract is not None:
         parts.append(contract.emit_clauses(exclude_clauses))
         b, ex.loops_spliced = splice_loops(b, contract)
+        b = splice_captures(b, contract, report)
     parts.append('#line %d "%s"' % (line_body, os.path.join(proj.repo, srcrel)))
     parts.append(b)
     ex.text = '\n'.join(parts)
     ex.body_c = b
     return ex
+
+
+def splice_captures(body, contract, report):
+    """R21: ghost capture.  After the declaration statement of a named local, append `ghost = expr;`
+    (ghost globals only; the executable text is otherwise unchanged)."""
+    for gname, local, expr, ctype in contract.captures:
+        m = re.search(r'(?<![\w.>])' + re.escape(local) + r'\s*=(?!=)', body)
+        if not m:
+            raise ExtractError('capture: local %s is not declared/assigned in the body' % local)
+        depth = 0
+        for ch in body[:m.start()]:
+            if ch == '(':
+                depth += 1
+            elif ch == ')':
+                depth -= 1
+        if depth != 0:
+            raise ExtractError('capture: first assignment of %s is inside parentheses' % local)
+        semi = X.Translator._stmt_end(body, m.end())
+        body = body[:semi + 1] + ' %s = %s;' % (gname, expr) + body[semi + 1:]
+        report.hit('R21.ghost_capture')
+    return body
+
+
+def capture_decls(contract):
+    return '\n'.join('%s %s;' % (ctype, gname) for gname, local, expr, ctype in contract.captures)
 
 
 def splice_loops(body, contract):
